@@ -9,3 +9,20 @@ func (m *verifMem) Flush(full, saves, removes []*Route) error { return nil }
 
 // VerifResetEmpty resets the global table to an empty in-memory provider.
 func VerifResetEmpty() { globalT.Reset(&verifMem{}) }
+
+// VerifPending renders the bookkeeping the table keeps between flushes (pending saves and
+// removals, in order). It is part of the state key of the C17 search: two histories that
+// reach the same table with different bookkeeping are different states.
+func VerifPending() string {
+	globalT.lock.RLock()
+	defer globalT.lock.RUnlock()
+	s := "S["
+	for _, r := range globalT.saves {
+		s += r.Pattern + ","
+	}
+	s += "]R["
+	for _, r := range globalT.removes {
+		s += r.Pattern + "=" + r.URL + ","
+	}
+	return s + "]"
+}
